@@ -7,7 +7,7 @@ import struct
 
 import vlib
 
-MODEL_VO = ['Mtz/Header.vo', 'Mtz/Data.vo', 'Mtz/RowBuf.vo']
+MODEL_VO = ['Mtz/Header.vo', 'Mtz/Data.vo', 'Mtz/RowBuf.vo', 'Mtz/Spec_gen.vo', 'Mtz/Recipe.vo']
 SPEC_VO = ['Mtz/SpecCheck.vo']
 
 
@@ -33,6 +33,7 @@ def harness():
 
 
 def driver():
+    gen_tables()    # the recipe model runs on the default specification text regenerated from the repo
     return vlib.ocaml_driver('mtz', MODEL_VO)
 
 
@@ -258,6 +259,15 @@ def gen_conv(rng, force=None):
             cols.append((lab, ty))
             if sig and rng.random() < 0.8:
                 cols.append(('SIG' + lab, sig))
+            # sometimes a second alternative of the same group is present too, before or after the first
+            # (the specification takes the first alternative in ITS order, not in file order)
+            if rng.random() < 0.2:
+                lab2, ty2 = rng.choice([a for a in alts if a[0] != lab])
+                extra = [(lab2, ty2)] + ([('SIG' + lab2, sig)] if sig and rng.random() < 0.8 else [])
+                if rng.random() < 0.5:
+                    cols[-(2 if cols[-1][0].startswith('SIG') else 1):-(2 if cols[-1][0].startswith('SIG') else 1)] = extra
+                else:
+                    cols += extra
     used_f = any(l in ('FWT', '2FOFCWT') for l, _ in cols)
     for grp in CONV_SINGLES:
         if rng.random() < 0.35:
@@ -269,7 +279,7 @@ def gen_conv(rng, force=None):
     if 'cols' in force:
         cols = force['cols']
     spec = force.get('spec', [])
-    if not spec and rng.random() < 0.3 and cols:
+    if not spec and not force.get('exact_spec') and rng.random() < 0.3 and cols:
         # custom spec lines for the columns present, with assorted (valid) formats incl. wide ones
         fmts = ['', '', 'g', '.5g', '.3f', 'f', '.10f', '12.4f', '_10.2f', '-12.5e', '+.4g', '32.3f', '.15f', '#g', '20.12e', 'e']
         tags = {}
@@ -305,6 +315,6 @@ def gen_conv(rng, force=None):
     w += [hx(l) for l in spec]
     # optional trailing token: row of the space-group table (default P 21 21 21); the harness skips settings that the
     # PDB-style name written to the mmCIF cannot identify (origin choices, non-standard settings sharing a name)
-    if 'sgrow' in force or rng.random() < 0.5:
+    if not force.get('nosg') and ('sgrow' in force or rng.random() < 0.5):
         w.append(str(force.get('sgrow', rng.choice([rng.randrange(564), -rng.randint(1, 14)]))))   # -k: k-th rhombohedral row
     return ' '.join(w)
